@@ -60,7 +60,8 @@ Fold(s, ops, n) == IF n = 0 THEN s ELSE Apply(Fold(s, ops, n - 1), ops[n])
 \* obs: [dirC : [Comps -> agent or ""], dirR : [Comps -> set], viewC : [Agents -> [Comps -> agent or ""]],
 \*       viewR : [Agents -> [Comps -> set]]]
 BadAt(s, obs, Agents, Comps) ==
-  {<<"computation_view_differs_from_directory", a, c>> : <<a, c>> \in {p \in Agents \X Comps :
+  \* (reported with what the view, the directory and the operations say about the host, for the diagnosis)
+  {<<"computation_view_differs_from_directory", p[1], p[2], obs.viewC[p[1]][p[2]], obs.dirC[p[2]], s.host[p[2]]>> : p \in {p \in Agents \X Comps :
         p[2] \in s.subC[p[1]] /\ obs.viewC[p[1]][p[2]] # obs.dirC[p[2]]}}
   \cup {<<"replica_view_differs_from_directory", a, c>> : <<a, c>> \in {p \in Agents \X Comps :
         p[2] \in s.subR[p[1]] /\ obs.viewR[p[1]][p[2]] # obs.dirR[p[2]]}}
